@@ -161,6 +161,13 @@ fn revoke_contract<const TABLE: u8, const L: usize, const NEIGH: bool>()
 //# id=K.cache.revoke.comp_removal.L3 props=C06,C01,C07 strength=bounded shape="list of length L=3 under the key, all ids symbolic; neighbour key and the 6 other lists hold one entry of the same id" tier=thorough fns=ReactCache::revoke_component_reactor
 #[kani::proof] #[kani::unwind(6)] fn k_cache_revoke_comp_removal_l3() { revoke_contract::<6, 3, true>(); }
 
+//# id=K.cache.revoke.broadcast.L4 props=C06,C01 strength=bounded shape="list of length L=4 under the key, all ids symbolic" tier=thorough fns=ReactCache::revoke_broadcast_reactor
+#[kani::proof] #[kani::unwind(7)] fn k_cache_revoke_broadcast_l4() { revoke_contract::<2, 4, false>(); }
+//# id=K.cache.revoke.comp_mutation.L4 props=C06,C01,C07 strength=bounded shape="list of length L=4 under the key, all ids symbolic" tier=thorough fns=ReactCache::revoke_component_reactor
+#[kani::proof] #[kani::unwind(7)] fn k_cache_revoke_comp_mutation_l4() { revoke_contract::<5, 4, true>(); }
+//# id=K.cache.revoke.despawn.L4 props=C06,C01 strength=bounded shape="list of length L=4 under the key, all ids symbolic" tier=thorough fns=ReactCache::revoke_despawn_reactor
+#[kani::proof] #[kani::unwind(7)] fn k_cache_revoke_despawn_l4() { revoke_contract::<3, 4, true>(); }
+
 // ===============================================================================================================
 // K.dispatch.*: what a trigger queues (C01, C05, C14).  The schedule_* systems are called directly as functions with the
 // assumed Commands / Query / Res of the stub; the queued commands are read back from the command queue (typed).
@@ -172,9 +179,17 @@ fn revoke_contract<const TABLE: u8, const L: usize, const NEIGH: bool>()
 use bevy::ecs::world::CommandQueue;
 use crate::react::react_component::verif_contracts::Val;
 
-/// multiset equality of the first n (<= 2) entries
-fn same_multiset(a: &[SystemCommand; 2], b: &[SystemCommand; 2], n: usize) -> bool {
-    match n { 0 => true, 1 => a[0] == b[0], _ => (a[0] == b[0] && a[1] == b[1]) || (a[0] == b[1] && a[1] == b[0]) }
+/// multiset equality of the first n (<= 4) entries
+fn same_multiset(a: &[SystemCommand; 4], b: &[SystemCommand; 4], n: usize) -> bool {
+    let mut i = 0;
+    while i < n {
+        let (mut ca, mut cb) = (0, 0);
+        let mut j = 0;
+        while j < n { if a[j] == a[i] { ca += 1; } if b[j] == a[i] { cb += 1; } j += 1; }
+        if ca != cb { return false; }
+        i += 1;
+    }
+    true
 }
 fn er_with(entries: &[(EntityReactionType, SystemCommand)]) -> EntityReactors {
     let mut er = EntityReactors::default();
@@ -218,7 +233,7 @@ fn entity_event_contract<const S: usize, const W: usize, const HAS_ER: bool, con
         let sp = sp.unwrap();
         assert!(crate::react::commands::verif_contracts::counter_value(&sp.bundle.0) == n, "schedule_entity_event_reaction: the reader counter equals the number of queued readers");
         let d = sp.entity;
-        let mut got = [SystemCommand(Entity::PLACEHOLDER); 2];
+        let mut got = [SystemCommand(Entity::PLACEHOLDER); 4];
         let mut k = 0;
         while k < n {
             let c = queue.verif_peek::<ReactionCommand>(1 + k);
@@ -232,7 +247,7 @@ fn entity_event_contract<const S: usize, const W: usize, const HAS_ER: bool, con
             }
             k += 1;
         }
-        let mut want = [SystemCommand(Entity::PLACEHOLDER); 2];
+        let mut want = [SystemCommand(Entity::PLACEHOLDER); 4];
         let mut k = 0; while k < n { want[k] = if k < S { scoped[k] } else { wide[k - S] }; k += 1; }
         assert!(same_multiset(&got, &want, n), "schedule_entity_event_reaction: exactly the registered reactors are scheduled (entity-scoped for this target and type-wide), each once per registration");
     }
@@ -248,6 +263,8 @@ fn entity_event_contract<const S: usize, const W: usize, const HAS_ER: bool, con
 #[kani::proof] #[kani::unwind(8)] fn k_dispatch_entity_event_s1w1_other() { entity_event_contract::<1, 1, true, true>(); }
 //# id=K.dispatch.entity_event.s0w2 props=C01,C05 strength=bounded shape="target without EntityReactors, 2 type-wide listeners" tier=quick fns=ReactCache::schedule_entity_event_reaction
 #[kani::proof] #[kani::unwind(8)] fn k_dispatch_entity_event_s0w2() { entity_event_contract::<0, 2, false, false>(); }
+//# id=K.dispatch.entity_event.s2w2 props=C01,C05 strength=bounded shape="2 scoped + 2 type-wide listeners (ids symbolic)" tier=off why="passes in ~1000 s when run alone, runs out of memory next to the other thorough harnesses" fns=ReactCache::schedule_entity_event_reaction,EntityReactors::count,EntityReactors::iter_rtype
+#[kani::proof] #[kani::unwind(10)] fn k_dispatch_entity_event_s2w2() { entity_event_contract::<2, 2, true, false>(); }
 //# id=K.dispatch.entity_event.s2w0 props=C01,C05 strength=bounded shape="2 scoped listeners (+ an entry of another event type), no type-wide listener" tier=thorough fns=ReactCache::schedule_entity_event_reaction,EntityReactors::count,EntityReactors::iter_rtype
 #[kani::proof] #[kani::unwind(8)] fn k_dispatch_entity_event_s2w0() { entity_event_contract::<2, 0, true, true>(); }
 
@@ -284,7 +301,7 @@ fn entity_reaction_contract<const MUTATION: bool, const S: usize, const W: usize
     let n = if HAS_COMP { S + W } else { 0 };
     if !HAS_COMP { assert!(queue.verif_pending() == 0, "schedule_insertion_reaction: nothing is queued for an entity that does not carry the component (not inserted / despawned before apply)"); }
     assert!(queue.verif_pending() == n, "schedule_insertion/mutation_reaction: exactly one command per matching registration (entity-scoped of this kind + type-wide of this kind), nothing else");
-    let mut got = [SystemCommand(Entity::PLACEHOLDER); 2];
+    let mut got = [SystemCommand(Entity::PLACEHOLDER); 4];
     let mut k = 0;
     while k < n {
         let c = queue.verif_peek::<ReactionCommand>(k);
@@ -298,7 +315,7 @@ fn entity_reaction_contract<const MUTATION: bool, const S: usize, const W: usize
         }
         k += 1;
     }
-    let mut want = [SystemCommand(Entity::PLACEHOLDER); 2];
+    let mut want = [SystemCommand(Entity::PLACEHOLDER); 4];
     let mut k = 0; while k < n { want[k] = if k < S { scoped[k] } else { wide[k - S] }; k += 1; }
     assert!(same_multiset(&got, &want, n), "schedule_insertion/mutation_reaction: exactly the registered reactors are scheduled (entity-scoped for this entity and type-wide), each once per registration");
     assert!(cache.reaction_commands_buffer.len() == 0, "schedule_insertion/mutation_reaction: the scratch buffer is left empty");
@@ -310,6 +327,8 @@ fn entity_reaction_contract<const MUTATION: bool, const S: usize, const W: usize
 #[kani::proof] #[kani::unwind(8)] fn k_dispatch_mutation_s1w1_plain() { entity_reaction_contract::<true, 1, 1, true, true, false>(); }
 //# id=K.dispatch.mutation.s1w1_other props=C01,C14 strength=bounded shape="1 scoped + 1 type-wide mutation listener, plus a scoped entry of the other kind" tier=thorough fns=ReactCache::schedule_mutation_reaction,schedule_entity_reaction_impl
 #[kani::proof] #[kani::unwind(8)] fn k_dispatch_mutation_s1w1_other() { entity_reaction_contract::<true, 1, 1, true, true, true>(); }
+//# id=K.dispatch.mutation.s2w2 props=C01,C14 strength=bounded shape="2 scoped + 2 type-wide mutation listeners" tier=off why="passes in ~1000 s when run alone, runs out of memory next to the other thorough harnesses" fns=ReactCache::schedule_mutation_reaction,schedule_entity_reaction_impl
+#[kani::proof] #[kani::unwind(10)] fn k_dispatch_mutation_s2w2() { entity_reaction_contract::<true, 2, 2, true, true, false>(); }
 //# id=K.dispatch.mutation.s0w0 props=C01,C14 strength=complete shape="entity without EntityReactors, no type-wide mutation listener (other lists non-empty)" tier=quick fns=ReactCache::schedule_mutation_reaction
 #[kani::proof] #[kani::unwind(8)] fn k_dispatch_mutation_s0w0() { entity_reaction_contract::<true, 0, 0, false, true, false>(); }
 //# id=K.dispatch.insertion.s0w1_er props=C01,C14 strength=bounded shape="entity with EntityReactors holding only another kind, 1 type-wide insertion listener" tier=quick fns=ReactCache::schedule_insertion_reaction,schedule_entity_reaction_impl
